@@ -363,8 +363,12 @@ def find_def(tree, qual):
     node = None
     for p in parts:
         node = None
+        # "name@setter": the definition of that name decorated with `@<...>.setter` (a property's setter shares its getter's name)
+        p, _, deco = p.partition("@")
         for n in body:
             if isinstance(n, (ast.ClassDef, ast.FunctionDef, ast.AsyncFunctionDef)) and n.name == p:
+                if deco and not any(ast.unparse(d).split(".")[-1] == deco for d in getattr(n, "decorator_list", [])):
+                    continue
                 node = n
                 break
         if node is None:
